@@ -690,3 +690,13 @@ func TName(n *types.Named) string {
 	}
 	return n.Obj().Name()
 }
+
+// FreshStruct: a package-level struct type the reviewed tree did not declare (under this name).
+func (p *Prog) FreshStruct(pkgPath, name string) bool {
+	p.loadAnchors()
+	if p.anchorTab == nil || len(p.anchorTab.Fields) == 0 {
+		return false
+	}
+	_, known := p.anchorTab.Fields[pkgPath+"|"+name]
+	return !known
+}
